@@ -1,5 +1,6 @@
 (* Prop_C09.v — C09: a retrying collection never waits while holding, and still completes. *)
-From HL Require Import Base Model Shape Algo Api OpsLemmas Lemmas ShapeLemmas ApiLemmas QuietLemmas.
+From HL Require Import Base Model Shape Algo Api Conc OpsLemmas Lemmas ShapeLemmas ApiLemmas QuietLemmas.
+From HL Require Monitors BMonitors WpMain Wp09.
 
 (* the blocking acquisition of a retrying collection, from ANY hold table of the other threads:
    - if every member is available it finishes holding every member exactly once (completion once the
@@ -42,5 +43,36 @@ Example C09_nonvacuous :
   exists w', run nopw 0 (retry_lock Ex locks 3) w = (OBlocked, w') /\ map (w_raw w') [0; 1; 2] = [raw_free; raw_free; mkraw (Some 9) []].
 Proof. eexists. vm_compute. split; reflexivity. Qed.
 
+
+(* ---------------------------------------------------------------- every schedule of the interleaved model *)
+(* In EVERY state reached by EVERY schedule from a scenario passing the decidable test wfB09 (no ghost holds, no injected
+   faults, guards dropped): a thread that waits inside the acquisition of a retrying collection (or a Poisonable around
+   one) holds only locks of the waited lock's own owned unit — nothing at all when the member waited on is a plain
+   lock.  Proof: the program logic of Wp.v with, as the condition checked at every blocking acquisition of such a call,
+   "everything in hand belongs to the unit of the requested lock" (Wp09.v). *)
+Theorem C09_every_schedule_waits_clean :
+  forall b sched t k l c m f p l', Wp09.wfB09 b = true ->
+  let sc := bs_sc b in
+  let s := fst (run_sched (bs_wp b) (sc_env sc) (sc_nlocks sc) (binit b) sched) in
+  parked (get_thr (b_thr s) t) = Some (ORaw k l) -> rop_blocking k = true ->
+  th_cur (get_thr (b_thr s) t) = Some (AAcquire c m f, p) ->
+  BMonitors.is_retry_root (Monitors.shape_of sc c) = true ->
+  holds_b (b_w s) t l' = true -> In l' (BMonitors.unit_of (Monitors.shape_of sc c) l).
+Proof. exact Wp09.every_schedule_retry_waits_clean. Qed.
+
+(* non-vacuity: thread 1 holds lock 2; thread 0 acquires the retrying collection [0; 1; 2], takes 0 by waiting and 1 by
+   try, fails on 2, releases both and is then parked on the blocking acquisition of 2 while holding nothing *)
+Definition ex09 : bscen :=
+  mkbs (mks 3 0 [0; 1; 2] [] [SRetry (SSeq [SLeaf KMutex 0; SLeaf KRw 1; SLeaf KMutex 2]); SLeaf KMutex 2] [] [] [] 6 [])
+       false
+       [[AKeyGet; AAcquire 0 Ex FGuard; AGuardDrop]; [AKeyGet; AAcquire 1 Ex FGuard; AGuardWrite 0; AGuardDrop]].
+Example C09_example :
+  Wp09.wfB09 ex09 = true /\
+  let s := fst (run_sched false (sc_env (bs_sc ex09)) 3 (binit ex09) [1; 1; 0; 0; 0; 0; 0; 0]) in
+  parked (get_thr (b_thr s) 0) = Some (ORaw OLock 2) /\ waits_b false s 0 = Some 2 /\
+  map (fun l => holds_b (b_w s) 0 l) [0; 1; 2] = [false; false; false].
+Proof. vm_compute. auto. Qed.
+
 Print Assumptions C09_retry_blocks_holding_nothing.
 Print Assumptions C09_leaf_members_hold_nothing.
+Print Assumptions C09_every_schedule_waits_clean.
